@@ -14,6 +14,7 @@ for f in sys.argv[1:]:
         m=re.match(r'(C\d\d_\w): PATCH DOES NOT APPLY',l)
         if m: own[m.group(1)]=(-1,'')
 rows=[]
+caughtmap={}
 for d in sorted(os.listdir('/verif/seeded')):
     p='/verif/seeded/'+d
     if not os.path.isdir(p): continue
@@ -26,9 +27,11 @@ for d in sorted(os.listdir('/verif/seeded')):
         m=re.match(r'(\S+) \((\w+)\)',t)
         return (m.group(1)+' ('+m.group(2)+')') if m else t[:80]
     caught=[]
-    if rc==1: caught.append(d[:3]+': '+first(txt))
+    if rc==1:
+        caught.append(d[:3]+': '+first(txt)); caughtmap.setdefault(d,[]).append(d[:3])
     for (pr,r,t) in cross.get(d,[]):
-        if r==1: caught.append(pr+': '+first(t))
+        if r==1:
+            caught.append(pr+': '+first(t)); caughtmap.setdefault(d,[]).append(pr)
     if rc==-1: verdict='patch no longer applies (target code replaced by a fix)'
     elif caught: verdict='caught'
     elif rc is None: verdict='not run'
@@ -38,6 +41,7 @@ out='| seed | changed file | verdict | failing obligation (check: obligation) |\
 for r in rows: out+='| %s | %s | %s | %s |\n'%r
 n=len(rows); c=sum(1 for r in rows if r[2]=='caught'); na=sum(1 for r in rows if r[2].startswith('patch'))
 out+='\n%d seeded changes; %d caught by a registered check, %d not caught, %d no longer applicable.\n'%(n,c,n-c-na,na)
+json.dump(caughtmap,open('/verif/seeded/caught.json','w'),indent=1,sort_keys=True)
 open('/verif/seeded/RESULTS.md','w').write('# Seeded changes against the registered checks\n\nProduced by tools/gen_seeded_results.py from the output of tools/mutants_all.sh / tools/mutant_cross.sh.\n\n'+out)
 s=open('/verif/DESIGN.md').read()
 a=s.find('<!-- SEEDED_TABLE_BEGIN -->'); b=s.find('<!-- SEEDED_TABLE_END -->')
